@@ -31,6 +31,16 @@ CHECKS = {
             "count, remainder) combinations incl. exactly one chunk; each is executed and compared with the specified conversion.",
             "Trusted: TLC; chunking is observed through position-coded tensors; tensors abstracted to symbol sequences.",
             "DESIGN.md §5 C15"),
+    "C10": (["VariantOps", "Variant", "Variant_Trace"],
+            "TLA+ spec (VariantOps/Variant) model-checked with TLC (same-loss, no-leak, length laws as invariants); all enumerated "
+            "variant lists replayed into tangermeme.variant_effect through an identity func/model; random lists validated against "
+            "Variant_Trace",
+            "TLC enumerates every deletion subset (<=3 per example, incl. the trimmed edge), insertion set and substitution set on "
+            "short batches with the string-level edited sequences as the specified result; each is executed and the tensors reaching "
+            "func are compared.",
+            "Trusted: TLC; identity func/model exposes the tensors passed to func; negative indices out of scope; conflicting "
+            "substitutions unspecified ('any'); two insertions at one coordinate may appear in either order.",
+            "DESIGN.md §5 C10"),
 }
 
 ALL = ["C%02d" % i for i in range(1, 21)]
